@@ -46,6 +46,7 @@ func runC16(c *core.Ctx) {
 	c16ProbeRules(c, pkg)
 	c16TickPhase(c, pkg)
 	c16TickerWiring(c, pkg)
+	c05Cron(c, pkg, "", "C16.cronend")
 	c16Ticker(c, pkg)
 	c16DBRPs(c, pkg)
 }
@@ -440,7 +441,7 @@ func c16Range(c *core.Ctx, pkg *packages.Package) {
 	const offSuffix, perSuffix = ".Add((-1 * n.b.Offset))", ".Add((-1 * n.b.Period))"
 	// live
 	if fn := c.Need("C16.range", "", "QueryNode", "doQuery"); fn != nil {
-		eng := &an.Engine{Prog: c.P, TrackCall: track, MaxPaths: 40000, Alias: map[string]string{an.RecvVarName(fn.Decl): "n"}}
+		eng := &an.Engine{Prog: c.P, TrackCall: track, GoLitCalls: true, MaxPaths: 40000, Alias: map[string]string{an.RecvVarName(fn.Decl): "n"}}
 		paths, err := eng.Run(fn)
 		if err != nil {
 			c.Undecided("C16.range", "QueryNode.doQuery", fn.Decl.Pos(), "%v", err)
